@@ -9,6 +9,7 @@
 package c03
 
 import (
+	"strings"
 	"bytes"
 	"encoding/hex"
 	"encoding/json"
@@ -257,10 +258,27 @@ func Menu() []udpx.Op {
 // clients sending at once to different listeners, then replies. Explored under every schedule
 // within the bound; every datagram must arrive with its own payload and its own source.
 func twoListeners(i int, ops []udpx.Op) *engine.Scenario {
+	return concurrent(fmt.Sprintf("udp-two-listeners-%d", i), udpx.Config{Keys: udpx.DefaultKeys(), NatTimeout: natTimeout, Listeners: 2}, ops)
+}
+
+// viaManager: the handler reads from handles of a listener manager's shared socket (the way the
+// server wires it), one listener; datagrams of two clients arrive back to back.
+func viaManager(i int, ops []udpx.Op) *engine.Scenario {
+	return concurrent(fmt.Sprintf("udp-via-manager-%d", i), udpx.Config{Keys: udpx.DefaultKeys(), NatTimeout: natTimeout, Listeners: 1, ViaManager: true}, ops)
+}
+
+func viaManagerInputs() [][]udpx.Op {
+	return [][]udpx.Op{
+		{{K: "P", Par: []udpx.Op{{K: "S", C: 0, Key: 0, T: 1, N: 40}, {K: "S", C: 1, Key: 1, T: 2, N: 30}}}},
+		{{K: "S", C: 0, Key: 0, T: 1, N: 10}, {K: "S", C: 1, Key: 1, T: 1, N: 10}, {K: "P", Par: []udpx.Op{{K: "S", C: 0, Key: 0, T: 1, N: 50}, {K: "S", C: 1, Key: 1, T: 2, N: 60}}}},
+	}
+}
+
+func concurrent(name string, cfg udpx.Config, ops []udpx.Op) *engine.Scenario {
 	tr := &udpx.Trace{}
-	sc := &engine.Scenario{Name: fmt.Sprintf("udp-two-listeners-%d", i), Opt: vrt.Options{Horizon: udpx.Horizon}}
+	sc := &engine.Scenario{Name: name, Opt: vrt.Options{Horizon: udpx.Horizon}}
 	sc.Body = func() {
-		udpx.Run(udpx.Config{Keys: udpx.DefaultKeys(), NatTimeout: natTimeout, Listeners: 2}, ops, tr)
+		udpx.Run(cfg, ops, tr)
 	}
 	sc.Check = func(x *vrt.Exec) (string, bool, []*engine.Finding) {
 		fs := hk.Generic(x, hk.Opts{})
@@ -287,7 +305,7 @@ func twoListeners(i int, ops []udpx.Op) *engine.Scenario {
 			for _, r := range st.TargetRecv {
 				obs += fmt.Sprint(len(r.Data), ";")
 				if !want[string(r.Data)] {
-					fs = append(fs, &engine.Finding{Sig: "payload-corrupt", Msg: fmt.Sprintf("step %d: a target received %d bytes that no client sent in this step (two listeners of one service, concurrent datagrams)", si, len(r.Data))})
+					fs = append(fs, &engine.Finding{Sig: "payload-corrupt", Msg: fmt.Sprintf("step %d: a target received %d bytes that no client sent in this step (%s, concurrent datagrams)", si, len(r.Data), name)})
 				} else if len(r.Data) >= 2 {
 					if c, ok := ports[r.FromUDP.Port]; ok && c != int(r.Data[0]) {
 						fs = append(fs, &engine.Finding{Sig: "shared-source", Msg: fmt.Sprintf("step %d: two clients left from server port %d", si, r.FromUDP.Port)})
@@ -381,6 +399,9 @@ func init() {
 		for i, in := range twoListenerInputs() {
 			engine.ExploreS(ctx, twoListeners(i, in), engine.SConfig{BothPolicies: true, Bound: bound, Shard: ctx.Shard, NShards: ctx.NShards, Deadline: ctx.Deadline})
 		}
+		for i, in := range viaManagerInputs() {
+			engine.ExploreS(ctx, viaManager(i, in), engine.SConfig{BothPolicies: true, Bound: bound, Shard: ctx.Shard, NShards: ctx.NShards, Deadline: ctx.Deadline})
+		}
 		depth := 3
 		if ctx.Tier == "thorough" {
 			depth = 4
@@ -413,6 +434,13 @@ func init() {
 			var scs []*engine.Scenario
 			for i, in := range twoListenerInputs() {
 				scs = append(scs, twoListeners(i, in))
+			}
+			return engine.ReplayScenario(scs, rp)
+		}
+		if strings.HasPrefix(rp.Unit, "udp-via-manager") {
+			var scs []*engine.Scenario
+			for i, in := range viaManagerInputs() {
+				scs = append(scs, viaManager(i, in))
 			}
 			return engine.ReplayScenario(scs, rp)
 		}
